@@ -11,6 +11,7 @@ CONSTANTS
   MaxCells = 4
   MaxMerges = 1
   MaxSheets = 1
+  KindSeq <- KindsAll
   Rots = {1}
   Layouts <- LayStd
 INVARIANTS TypeOK PlacedByRef FunctionLike MergeBlank RootShown
